@@ -23,6 +23,7 @@ import (
 	"encoding/json"
 	"fmt"
 	"math/big"
+	"sort"
 
 	"github.com/polynetwork/poly/common"
 	"github.com/polynetwork/poly/native"
@@ -206,7 +207,14 @@ func (this *RippleHandler) MultiSign(service *native.NativeService) error {
 		if err != nil {
 			return fmt.Errorf("MultiSign, types.DeserializeRawMultiSignTx error")
 		}
+		// iterate in sorted key order: map iteration order is random, and the keys start with the
+		// signer account, so ascending order is also the canonical order ripple requires for Signers
+		sigList := make([]string, 0, len(multisignInfo.SigMap))
 		for s := range multisignInfo.SigMap {
+			sigList = append(sigList, s)
+		}
+		sort.Strings(sigList)
+		for _, s := range sigList {
 			signerBytes, err := hex.DecodeString(s)
 			if err != nil {
 				return fmt.Errorf("MultiSign, hex.DecodeString signer bytes error")
